@@ -383,6 +383,8 @@ fn main() -> Result<()> {
         Commands::Info { archive } => {
             eprintln!("Info command not yet implemented for archive: {archive:?}");
             eprintln!("This will be implemented in a future version.");
+            // Doing nothing is not success (the archive is not even opened)
+            anyhow::bail!("info is not implemented");
         }
 
         Commands::Getset {
